@@ -75,6 +75,7 @@ type Gen struct {
 	repoMod   string // module path prefix of the repository
 	writeSets map[*ssa.Function]*writeSet
 	compSortHints map[string]Sort
+	stable    map[string]map[string]bool // stable field component prefix -> declared writers
 	workDir   string
 	timeoutS  int
 	verbose   bool
@@ -83,6 +84,8 @@ type Gen struct {
 type writeSet struct {
 	comps map[string]bool
 	all   bool
+	allEvents bool
+	why       []string
 	done  bool
 }
 
